@@ -9,7 +9,15 @@ import corpus
 import mutate
 from vlib import ToolError, log
 
-EXTRA_FILES = [("m.ts", "export type X = { m: number };\nexport const v = 1;\n")]
+# the second file is much longer than the entry file, and what is wrong in it comes last: a diagnostic that pairs its byte
+# offsets with the entry file's name falls outside that file
+EXTRA_FILES = [("m.ts", "export type X = { m: number };\nexport const v = 1;\n"
+                + "".join(f"// padding line {i:03d} " + "-" * 60 + "\n" for i in range(70))
+                + "export type Rf = { name: string; children: Rf[] };\n"
+                + "export enum BadE { Low, High }\n"
+                + "export enum CallE { A = String(1) }\n"
+                + "export type BadT = { f: symbol; g: () => void };\n"
+                + "export interface BadI { m(): void }\n")]
 
 
 def grammar(tag, maxdepth, leafset, wrapset, simulate=None):
@@ -94,7 +102,7 @@ def run(prop, tier):
         exprs |= {p["expr"] for p in progs2}
         states += gr2["states"]
     for e in sorted(exprs):
-        src = pre + "type T = " + e + ";\nparse.buildParsers<{ T: T }>();\n"
+        src = pre + "type T = " + e + ";\nparse.buildParsers<{ T: T, Sem1: Sem1 }>();\n"
         projects.append({"origin": "grammar", "expr": e, "files": [("entry.ts", src)] + EXTRA_FILES,
                          "cyclic": False})
     ngram = len(projects)
